@@ -474,7 +474,7 @@ func TestC05(t *testing.T) { runGenerated(t, propC05) }
 
 var propC06 = register(&Property{
 	ID: "C06",
-	Rule: "connected/ladder/motif/dag/multi graphs (long edges frequent) x size-aware positioners x heterogeneous widths AND heights (uniform for splines: D_S) x each routing style x virtual output on/off x LayerSpacing > 0; " +
+	Rule: "connected/ladder/motif/dag/multi graphs (long edges frequent) x size-aware positioners x heterogeneous widths AND heights (uniform for splines: D_S) x each routing style x virtual output on/off x LayerSpacing >= 0 (0 with polyline only when no node has height 0: bands are derived from Y); " +
 		"non-trivial = an edge spanning >=3 bands in a drawing whose bands have different heights",
 	New:   func() any { return &Case{} },
 	Gen:   func(rt *rapid.T, s *Stats) any { return genC06(rt, s) },
@@ -487,10 +487,21 @@ func genC06(rt *rapid.T, st *Stats) *Case {
 	c := &Case{Edges: toEdges(ies, nameScheme(rt))}
 	poss := posFor(n, len(ies), sizeAwarePos)
 	genOptions(rt, c, NodeIDs(c.Edges), OptSpec{CBs: allCB, Lays: allLay, Poss: poss, Rts: []int{RtPolyline, RtStraight, RtOrtho, RtSplines},
-		Thorough: false, Virt: true, Sizes: 1, IntForNS: true, NSZero: true, LSZero: false, DefaultsOK: true})
+		Thorough: false, Virt: true, Sizes: 1, IntForNS: true, NSZero: true, LSZero: true, DefaultsOK: true})
 	if c.Rt == RtSplines && !inSplineSafeDomain(c) {
 		st.exclude("K3-splines-outside-safe-domain")
 		forceSplineSafe(rt, c, n > 12)
+	}
+	// LayerSpacing 0 (bands touch) is inside the property and a boundary the orthogonal router treats specially
+	// (seeded/r4-m06). Only the polyline clause needs bands derived from Y ("one bend per intermediate band"): there
+	// touching bands are fine as long as no band can have height 0, otherwise the spacing is redrawn positive.
+	if c.Rt == RtPolyline && c.LayerSpacing() == 0 {
+		for _, id := range NodeIDs(c.Edges) {
+			if c.ConfiguredSize(id).H == 0 {
+				c.LS = ptr(genDim(rt, "ls_pos", false))
+				break
+			}
+		}
 	}
 	return c
 }
@@ -584,6 +595,7 @@ func checkC06(c *Case) *Outcome {
 		}
 	}
 	o.classIf(maxSpan >= 3, "span>=3")
+	o.classIf(c.LayerSpacing() == 0, "layer_spacing=0")
 	o.NonTrivial = maxSpan >= 3 && len(heights) >= 2
 	return o
 }
